@@ -799,6 +799,9 @@ func (x *Exec) run() {
 			t := x.evalBool(ctx, c)
 			st.assume(t, "requires ["+c.Label+"]")
 		}
+		for _, c := range x.fc.EntryAssumes {
+			st.assume(x.evalBool(ctx, c), "entry_assume ["+c.Label+"] (thread-local ghost definition)")
+		}
 	}
 	x.entry = st.clone()
 	if len(fn.Blocks) == 0 {
@@ -1093,7 +1096,7 @@ func (x *Exec) effectFreeCall(c *ssa.CallCommon) bool {
 	case "fmt.Sprintf", "fmt.Errorf", "errors.New":
 		return true
 	}
-	if f.Pkg != nil && x.prog.Spec.PkgFrames[f.Pkg.Pkg.Path()] {
+	if pk := fnPkgPath(f); pk != "" && x.prog.Spec.PkgFrames[pk] {
 		return true
 	}
 	// methods of types declared in an effect-free package
@@ -1226,6 +1229,10 @@ func (x *Exec) havocLoop(st *State, h *ssa.BasicBlock) {
 	rangeIters := map[*ssa.Range]bool{}
 	for b := range blocks {
 		for _, in := range b.Instrs {
+			if _, isGo := in.(*ssa.Go); isGo {
+				// an earlier iteration may already have started a goroutine
+				st.shared = true
+			}
 			switch v := in.(type) {
 			case *ssa.Store:
 				x.staticWrite(v.Addr, blocks, cells, frame)
